@@ -38,7 +38,7 @@ def generate(prop, rng, index, tier):
                        "attrs": ({"units": rng.choice(["m", "degrees_north"]), "long_name": d + " axis"}
                                  if rng.random() < 0.6 else {})} for d, n in dims},
         "var": {"name": "elev", "dtype": rng.choice(["i2", "f4", "f8"]), "fill": rng.choice([None, -1, -9999])},
-        "crs": rng.random() < 0.4,
+        "crs": rng.choice([False, False, False, True, True, "int-with-fill"]),
         # the data model of the template file (what the grid was exported as) is not the writer's business
         "format": rng.choice(["NETCDF4", "NETCDF4", "NETCDF4_CLASSIC", "NETCDF3_CLASSIC", "NETCDF3_64BIT_OFFSET"]),
     }
@@ -48,6 +48,10 @@ def generate(prop, rng, index, tier):
             c["values"] = [int(v) for v in c["values"]]
         if rng.random() < 0.1:
             c["absent"] = True         # a dimension without a coordinate variable (plain index dimension)
+        elif rng.random() < 0.15 and not c["packed"]:
+            # a declared valid range that some of the coordinate values lie outside of (longitudes 0..360 with -180/180)
+            c["attrs"] = dict(c["attrs"], valid_min=-10, valid_max=10) if rng.random() < 0.5 else \
+                dict(c["attrs"], valid_range=[-10, 10])
         if not c["packed"] and rng.random() < 0.25:
             # a coordinate variable that declares a fill value (what xarray writes for every float coordinate)
             c["fill"] = "nan" if c["dtype"].startswith("f") and rng.random() < 0.6 else -32768
@@ -181,7 +185,11 @@ def _make_template(path, t):
                 v[:] = numpy.array(c["values"], dtype=c["dtype"])
             for k, a in sorted(c["attrs"].items()):
                 v.setncattr(k, a)
-        if t["crs"]:
+        if t["crs"] == "int-with-fill":
+            crs = ds.createVariable("crs", "i4", (), fill_value=-2147483647)
+            crs.setncattr("grid_mapping_name", "latitude_longitude")
+            crs.setncattr("semi_major_axis", 6378137.0)
+        elif t["crs"]:
             crs = ds.createVariable("crs", "S1", ())
             crs.setncattr("grid_mapping_name", "latitude_longitude")
             crs.setncattr("semi_major_axis", 6378137.0)
@@ -311,8 +319,8 @@ def execute(sc):
                         a, b = ds.variables[d], ts.variables[d]
                         if t["coords"][d].get("packed"):
                             res.probe("packed (scale_factor/add_offset) coordinate variable")
-                        a.set_auto_maskandscale(True)
-                        b.set_auto_maskandscale(True)
+                        a.set_auto_maskandscale(False)      # what is stored, not what a reader makes of it
+                        b.set_auto_maskandscale(False)
                         if a.dtype != b.dtype or numpy.asarray(a[:]).tobytes() != numpy.asarray(b[:]).tobytes():
                             res.violate("C18.dims", "C18.dims coordinate-values-changed",
                                         "coordinate %s: %s %r instead of %s %r" % (d, a.dtype, a[:].tolist(), b.dtype, b[:].tolist()))
